@@ -29,6 +29,7 @@ import (
 	"io/fs"
 	"os"
 	"strings"
+	"sync/atomic"
 	"time"
 
 	"github.com/avfs/avfs"
@@ -344,6 +345,8 @@ func (vfs *MemFS) Link(oldname, newname string) error {
 // retry is true when the file found during the path walk
 // has been removed by another goroutine before it could be locked.
 func (vfs *MemFS) link(oldname, newname string) (retry bool, err error) {
+	seq := vfs.renameSeqNow()
+
 	oParent, oChild, oPI, oerr := vfs.searchNode(oldname, slmLstat)
 	if oerr != vfs.err.FileExists || oChild == nil {
 		return false, oerr
@@ -377,7 +380,7 @@ func (vfs *MemFS) link(oldname, newname string) (retry bool, err error) {
 	oIsRoot := oChild == node(oParent)
 	nIsRoot := nChild != nil && nChild == node(nParent)
 
-	if oParent.removed || nParent.removed ||
+	if oParent.removed || nParent.removed || vfs.renameSeqNow() != seq ||
 		!oIsRoot && oParent.children[oPI.Part()] != oChild ||
 		!nIsRoot && nParent.children[nPI.Part()] != nChild {
 		return true, nil
@@ -473,33 +476,50 @@ func (vfs *MemFS) Mkdir(name string, perm fs.FileMode) error {
 		return &fs.PathError{Op: op, Path: "", Err: vfs.err.NoSuchDir}
 	}
 
+	for {
+		retry, err := vfs.mkdir(name, perm)
+		if !retry {
+			if err != nil {
+				return &fs.PathError{Op: op, Path: name, Err: err}
+			}
+
+			return nil
+		}
+	}
+}
+
+// mkdir creates a new directory with the specified name and permission bits.
+// retry is true when a directory of the path has been moved or removed
+// by another goroutine between the path walk and the locking of the parent directory.
+func (vfs *MemFS) mkdir(name string, perm fs.FileMode) (retry bool, err error) {
+	seq := vfs.renameSeqNow()
+
 	// Mkdir does not follow a symbolic link given as last element : the name exists.
 	parent, _, pi, err := vfs.searchNode(name, slmLstat)
 	if !vfs.isNotExist(err) || !pi.IsLast() {
-		return &fs.PathError{Op: op, Path: name, Err: err}
+		return false, err
 	}
 
 	verifYield(&parent.mu, true)
 	parent.mu.Lock()
 	defer parent.mu.Unlock()
 
-	if parent.removed {
-		// the directory has been removed since it was found.
-		return &fs.PathError{Op: op, Path: name, Err: vfs.err.NoSuchDir}
+	if parent.removed || vfs.renameSeqNow() != seq {
+		return true, nil
 	}
 
 	if !parent.checkPermission(avfs.OpenWrite|avfs.OpenLookup, vfs.User()) {
-		return &fs.PathError{Op: op, Path: name, Err: vfs.err.PermDenied}
+		return false, vfs.err.PermDenied
 	}
 
 	part := pi.Part()
 	if parent.children[part] != nil {
-		return &fs.PathError{Op: op, Path: name, Err: vfs.err.FileExists}
+		return false, vfs.err.FileExists
 	}
 
 	_ = vfs.createDir(parent, part, perm)
 
-	return nil
+	return false, nil
 }
 
 // MkdirAll creates a directory named name,
@@ -524,6 +544,8 @@ func (vfs *MemFS) MkdirAll(path string, perm fs.FileMode) error {
 func (vfs *MemFS) mkdirAll(path string, perm fs.FileMode) (retry bool, err error) {
 	const op = "mkdir"
 
+	seq := vfs.renameSeqNow()
+
 	parent, child, pi, err := vfs.searchNode(path, slmEval)
 	switch child.(type) {
 	case *dirNode:
@@ -546,8 +568,8 @@ func (vfs *MemFS) mkdirAll(path string, perm fs.FileMode) (retry bool, err error
 	parent.mu.Lock()
 	defer parent.mu.Unlock()
 
-	if parent.removed || parent.children[pi.Part()] != nil {
-		// the directory has been removed or the name created since the path walk.
+	if parent.removed || parent.children[pi.Part()] != nil || vfs.renameSeqNow() != seq {
+		// the directory has been removed or moved, or the name created, since the path walk.
 		return true, nil
 	}
 
@@ -623,6 +645,8 @@ func (vfs *MemFS) openFile(name string, flag int, perm fs.FileMode) (file avfs.F
 		mode = slmLstat
 	}
 
+	seq := vfs.renameSeqNow()
+
 	parent, child, pi, err := vfs.searchNode(name, mode)
 	if err != vfs.err.FileExists && !vfs.isNotExist(err) || !pi.IsLast() {
 		return (*MemFile)(nil), false, &fs.PathError{Op: op, Path: name, Err: err}
@@ -643,8 +667,8 @@ func (vfs *MemFS) openFile(name string, flag int, perm fs.FileMode) (file avfs.F
 
 		part := pi.Part()
 
-		if parent.removed || parent.children[part] != nil {
-			// the directory has been removed or the name created since the path walk.
+		if parent.removed || parent.children[part] != nil || vfs.renameSeqNow() != seq {
+			// the directory has been removed or moved, or the name created, since the path walk.
 			return nil, true, nil
 		}
 
@@ -671,7 +695,7 @@ func (vfs *MemFS) openFile(name string, flag int, perm fs.FileMode) (file avfs.F
 		parent.mu.RLock()
 		defer parent.mu.RUnlock()
 
-		if parent.removed || parent.children[pi.Part()] != child {
+		if parent.removed || parent.children[pi.Part()] != child || vfs.renameSeqNow() != seq {
 			return nil, true, nil
 		}
 	}
@@ -802,6 +826,8 @@ func (vfs *MemFS) Remove(name string) error {
 // retry is true when the entry found during the path walk
 // has been changed by another goroutine before it could be locked.
 func (vfs *MemFS) remove(name string) (retry bool, err error) {
+	seq := vfs.renameSeqNow()
+
 	parent, child, pi, err := vfs.searchNode(name, slmLstat)
 	if err != vfs.err.FileExists || child == nil {
 		return false, err
@@ -817,7 +843,7 @@ func (vfs *MemFS) remove(name string) (retry bool, err error) {
 	defer parent.mu.Unlock()
 
 	part := pi.Part()
-	if parent.removed || parent.children[part] != child {
+	if parent.removed || parent.children[part] != child || vfs.renameSeqNow() != seq {
 		return true, nil
 	}
 
@@ -832,6 +858,11 @@ func (vfs *MemFS) remove(name string) (retry bool, err error) {
 		if len(c.children) != 0 {
 			return false, vfs.err.DirNotEmpty
 		}
+	}
+
+	if _, ok := child.(*symlinkNode); ok {
+		// the path walks in progress that went through the link are no longer valid.
+		atomic.AddUint64(vfs.renameSeq, 1)
 	}
 
 	parent.removeChild(part)
@@ -869,6 +900,8 @@ func (vfs *MemFS) RemoveAll(path string) error {
 // retry is true when the entry found during the path walk
 // has been changed by another goroutine before it could be locked.
 func (vfs *MemFS) removeAll(path string) (retry bool, err error) {
+	seq := vfs.renameSeqNow()
+
 	parent, child, pi, err := vfs.searchNode(path, slmLstat)
 	if vfs.isNotExist(err) {
 		return false, nil
@@ -893,7 +926,7 @@ func (vfs *MemFS) removeAll(path string) (retry bool, err error) {
 	}
 
 	part := pi.Part()
-	if parent.removed || parent.children[part] != child {
+	if parent.removed || parent.children[part] != child || vfs.renameSeqNow() != seq {
 		return true, nil
 	}
 
@@ -909,6 +942,11 @@ func (vfs *MemFS) removeAll(path string) (retry bool, err error) {
 
 	if ok := parent.checkPermission(avfs.OpenWrite, vfs.User()); !ok {
 		return false, vfs.err.PermDenied
+	}
+
+	if _, ok := child.(*symlinkNode); ok {
+		// the path walks in progress that went through the link are no longer valid.
+		atomic.AddUint64(vfs.renameSeq, 1)
 	}
 
 	parent.removeChild(part)
@@ -939,6 +977,11 @@ func (vfs *MemFS) removeContent(dir *dirNode) error {
 
 				return err
 			}
+		}
+
+		if _, ok := child.(*symlinkNode); ok {
+			// the path walks in progress that went through the link are no longer valid.
+			atomic.AddUint64(vfs.renameSeq, 1)
 		}
 
 		// the entry is removed as soon as its content is, so that a failure
@@ -974,6 +1017,8 @@ func (vfs *MemFS) Rename(oldpath, newpath string) error {
 // retry is true when an entry found during the path walks
 // has been changed by another goroutine before the directories could be locked.
 func (vfs *MemFS) rename(oldpath, newpath string) (retry bool, err error) {
+	seq := vfs.renameSeqNow()
+
 	oParent, oChild, oPI, oErr := vfs.searchNode(oldpath, slmLstat)
 	if oErr != vfs.err.FileExists {
 		return false, oErr
@@ -1009,7 +1054,7 @@ func (vfs *MemFS) rename(oldpath, newpath string) (retry bool, err error) {
 		defer second.mu.Unlock()
 	}
 
-	if oParent.removed || nParent.removed ||
+	if oParent.removed || nParent.removed || vfs.renameSeqNow() != seq ||
 		oParent.children[oPI.Part()] != oChild || nParent.children[nPI.Part()] != nChild {
 		return true, nil
 	}
@@ -1076,6 +1121,9 @@ func (vfs *MemFS) rename(oldpath, newpath string) (retry bool, err error) {
 
 		vfs.unlink(nChild)
 	}
+
+	// the path walks in progress that went through the entry are no longer valid.
+	atomic.AddUint64(vfs.renameSeq, 1)
 
 	nParent.addChild(nPI.Part(), oChild)
 	oParent.removeChild(oPI.Part())
@@ -1161,34 +1209,51 @@ func (vfs *MemFS) Sub(dir string) (avfs.VFS, error) {
 func (vfs *MemFS) Symlink(oldname, newname string) error {
 	const op = "symlink"
 
+	for {
+		retry, err := vfs.symlink(oldname, newname)
+		if !retry {
+			if err != nil {
+				return &os.LinkError{Op: op, Old: oldname, New: newname, Err: err}
+			}
+
+			return nil
+		}
+	}
+}
+
+// symlink creates newname as a symbolic link to oldname.
+// retry is true when a directory of the path has been moved or removed
+// by another goroutine between the path walk and the locking of the parent directory.
+func (vfs *MemFS) symlink(oldname, newname string) (retry bool, err error) {
+	seq := vfs.renameSeqNow()
+
 	parent, _, pi, nerr := vfs.searchNode(newname, slmLstat)
 	if !vfs.isNotExist(nerr) || !pi.IsLast() {
-		return &os.LinkError{Op: op, Old: oldname, New: newname, Err: nerr}
+		return false, nerr
 	}
 
 	verifYield(&parent.mu, true)
 	parent.mu.Lock()
 	defer parent.mu.Unlock()
 
-	if parent.removed {
-		// the directory has been removed since it was found.
-		return &os.LinkError{Op: op, Old: oldname, New: newname, Err: vfs.err.NoSuchDir}
+	if parent.removed || vfs.renameSeqNow() != seq {
+		return true, nil
 	}
 
 	if parent.children[pi.Part()] != nil {
 		// the new name has been created since it was looked up.
-		return &os.LinkError{Op: op, Old: oldname, New: newname, Err: vfs.err.FileExists}
+		return false, vfs.err.FileExists
 	}
 
 	if !parent.checkPermission(avfs.OpenWrite, vfs.User()) {
-		return &os.LinkError{Op: op, Old: oldname, New: newname, Err: vfs.err.PermDenied}
+		return false, vfs.err.PermDenied
 	}
 
 	link := vfs.Clean(oldname)
 
 	vfs.createSymlink(parent, pi.Part(), link)
 
-	return nil
+	return false, nil
 }
 
 // TempDir returns the default directory to use for temporary files.
